@@ -2,6 +2,7 @@
 from checks import kern, law_audits
 from checks import pure_fns
 from checks import full_step
+from checks import api_cov
 LEAN_TARGETS = ["drv_step", "QmcProofs.SamplerStep", "QmcProofs.SamplerCluster", "QmcProps.C04", "drv_c04", "QmcProps.C08", "drv_c08", "QmcProps.C02", "drv_c02"]
 BINS = ["fullstep", "c04", "c04m", "c08", "c02", "kern"]
 
@@ -152,4 +153,5 @@ def main(ck):
                     "so that a change to the diagonal update (diagonal.rs / heatbath.rs) is reported against C04 as well.")
     full_step.run(ck, modes=["generic"], audit=True)
     law_audits.run(ck, groups=["generic"])   # law of the executable generic step (loops off) = kernels; C04 capstone
+    api_cov.run(ck, "c04")   # otherwise unexercised public API, model-free oracles of this property
     return ck.finish(RULE)
